@@ -105,20 +105,25 @@ ApplyEff(S, ef) ==
                               ELSE [q |-> AppR(S.q, Head(S.dq)), dq |-> Tail(S.dq), nid |-> S.nid,
                                     mark |-> <<"recall", Head(S.dq)[1], Head(S.dq)[2]>>]
     [] ef[1] = "scribble"  -> [q |-> S.q, dq |-> S.dq, nid |-> S.nid, mark |-> <<"scribble", ef[2], 0>>]
+    [] ef[1] = "raise"     -> [q |-> S.q, dq |-> S.dq, nid |-> S.nid, mark |-> <<"raise", "", 0>>]   \* the handler fails here
 
+Faulted(marks) == marks # <<>> /\ marks[Len(marks)][1] = "raise"
 RECURSIVE ApplyEffs(_, _, _)
 ApplyEffs(S, efs, marks) ==
-  IF efs = <<>> THEN [q |-> S.q, dq |-> S.dq, nid |-> S.nid, marks |-> marks]
+  IF efs = <<>> \/ Faulted(marks) THEN [q |-> S.q, dq |-> S.dq, nid |-> S.nid, marks |-> marks]
   ELSE LET r == ApplyEff(S, Head(efs)) IN ApplyEffs(r, Tail(efs), Append(marks, r.mark))
 
 EffsOf(call) == IF call[1] \in Inner3 \/ Answers(call[2], call[1]) THEN Eff(call[2], call[1]) ELSE <<>>
 
-RECURSIVE RunCalls(_, _, _)     \* run the handlers' side effects along the prescribed calls
+(* run the handlers' side effects along the prescribed calls; a handler that fails ends the *)
+(* step there: what it did before stays done, nothing of the step is undone or redone       *)
+RECURSIVE RunCalls(_, _, _)
 RunCalls(S, calls, out) ==
-  IF calls = <<>> THEN [q |-> S.q, dq |-> S.dq, nid |-> S.nid, alog |-> out]
+  IF calls = <<>> THEN [q |-> S.q, dq |-> S.dq, nid |-> S.nid, alog |-> out, fault |-> FALSE]
   ELSE LET c == Head(calls)
            r == ApplyEffs(S, EffsOf(c), <<>>)
-       IN RunCalls(r, Tail(calls), Append(out, <<c[1], c[2], r.marks>>))
+       IN IF Faulted(r.marks) THEN [q |-> r.q, dq |-> r.dq, nid |-> r.nid, alog |-> Append(out, <<c[1], c[2], r.marks>>), fault |-> TRUE]
+          ELSE RunCalls(r, Tail(calls), Append(out, <<c[1], c[2], r.marks>>))
 
 ----------------------------------------------------------------------------
 (* C19: what the spy must show for the invocations the processor actually made.        *)
@@ -129,6 +134,7 @@ MarkLines(m) ==
     [] m[1] = "defer"     -> <<"POST_DEFERRED:" \o m[2]>>
     [] m[1] = "recall"    -> IF m[2] = "" THEN <<>> ELSE <<"RECALL:" \o m[2], "POST_FIFO:" \o m[2]>>
     [] m[1] = "scribble"  -> <<m[2]>>
+    [] OTHER              -> <<>>
 RECURSIVE MarksLines(_)
 MarksLines(ms) == IF ms = <<>> THEN <<>> ELSE MarkLines(Head(ms)) \o MarksLines(Tail(ms))
 CallLines(c) ==
@@ -153,7 +159,7 @@ Start(S, log) ==
          lines == (rtc \o <<"START">>) \o LogLines(log)
          nrtc  == IF ~Instr THEN <<>> ELSE IF Queued THEN Append(lines, QR(F.q, F.dq)) ELSE lines
      IN /\ started' = TRUE /\ cur' = r.cur /\ q' = F.q /\ dq' = F.dq /\ nid' = F.nid
-        /\ alog' = F.alog /\ did' = 0 /\ res' = IF r.kind = "raise" THEN "raise" ELSE "ok"
+        /\ alog' = F.alog /\ did' = 0 /\ res' = IF F.fault THEN "fault" ELSE IF r.kind = "raise" THEN "raise" ELSE "ok"
         /\ rtc' = nrtc
         /\ full' = IF Instr THEN Ring(full \o nrtc, chart.spy_ring) ELSE <<>>
         /\ trc' = IF Instr THEN Ring(Append(trc, <<"top", "", Name(r.cur)>>), chart.trc_ring) ELSE <<>>
@@ -169,7 +175,7 @@ StepFrom(sg, id, S0, log, viaQueue) ==
       nrtc  == IF ~Instr THEN <<>> ELSE IF viaQueue THEN Append(lines, QR(F.q, F.dq)) ELSE lines
   IN /\ cur' = r.cur /\ q' = F.q /\ dq' = F.dq /\ nid' = F.nid
      /\ alog' = F.alog /\ did' = id /\ hist' = Append(hist, id)
-     /\ res' = IF r.kind = "raise" THEN "raise" ELSE IF viaQueue THEN "T" ELSE "ok"
+     /\ res' = IF F.fault THEN "fault" ELSE IF r.kind = "raise" THEN "raise" ELSE IF viaQueue THEN "T" ELSE "ok"
      /\ rtc' = nrtc
      /\ full' = IF Instr THEN Ring(full \o nrtc, chart.spy_ring) ELSE <<>>
      /\ trc' = IF Instr /\ r.kind = "tran" THEN Ring(Append(trc, <<Name(cur), sg, Name(r.cur)>>), chart.trc_ring) ELSE trc
@@ -250,7 +256,7 @@ Replay(active, calls) ==
     ELSE Replay(active, Tail(calls))
 
 (* UML order (C01, C03): every step's action log is well nested and ends on Path(cur') *)
-StepWellNested == (res' # "raise") => Replay(Path(chart.par, cur), alog') = Path(chart.par, cur')
+StepWellNested == (res' \notin {"raise", "fault"}) => Replay(Path(chart.par, cur), alog') = Path(chart.par, cur')
 WellNested == [][StepWellNested]_vars
 
 (* C02: a step that is not a transition runs no entry/exit/init and stays put *)
@@ -258,7 +264,7 @@ NoActionUnlessTran ==
   [][(cur' = cur /\ started) => \/ \A i \in 1..Len(alog') : alog'[i][1] \notin {"ENTRY_SIGNAL", "EXIT_SIGNAL"}
                                 \/ \E i \in 1..Len(alog') : alog'[i][1] = "EXIT_SIGNAL" /\ alog'[i][2] = cur]_vars
 
-RestsInLeafOfInit == started /\ res # "raise" => chart.init[cur] = 0      \* rests where no initial transition is left
+RestsInLeafOfInit == started /\ res \notin {"raise", "fault"} => chart.init[cur] = 0      \* rests where no initial transition is left
 QueuesBounded == Len(q) <= chart.cap /\ Len(dq) <= chart.cap             \* C16
 Ids(s) == {s[i][2] : i \in 1..Len(s)}
 NoDup(s) == \A i, j \in 1..Len(s) : i # j => s[i] # s[j]
@@ -266,6 +272,6 @@ AtMostOnce == NoDup(hist)                                                 \* C14
 QueueIdsDistinct == NoDup([i \in 1..Len(q) |-> q[i][2]]) /\ Ids(q) \cap Ids(dq) = {}
 DeferredNotDispatched == \A i \in 1..Len(dq) : \A j \in 1..Len(hist) : hist[j] # dq[i][2]   \* C15
 DispatchedWasFront == [][(did' # 0 /\ Queued /\ q # <<>> /\ res' \in {"T"}) => did' = Head(q)[2]]_vars   \* C14
-TraceEndsInCur == (started /\ Instr /\ trc # <<>> /\ res # "raise") => trc[Len(trc)][3] = Name(cur)     \* C20
+TraceEndsInCur == (started /\ Instr /\ trc # <<>> /\ res \notin {"raise", "fault"}) => trc[Len(trc)][3] = Name(cur)     \* C20
 RingsBounded == Len(full) <= chart.spy_ring /\ Len(trc) <= chart.trc_ring
 =============================================================================
